@@ -182,15 +182,27 @@ def _to_ref_ast(a):
     return a
 
 
+def _json_equal(u, v):
+    if isinstance(u, bool) or isinstance(v, bool):
+        return isinstance(u, bool) and isinstance(v, bool) and u == v
+    if isinstance(u, list) and isinstance(v, list):
+        return len(u) == len(v) and all(_json_equal(a, b) for a, b in zip(u, v))
+    if isinstance(u, dict) and isinstance(v, dict):
+        return set(u) == set(v) and all(_json_equal(u[k], v[k]) for k in u)
+    if R.is_num(u) and R.is_num(v):
+        return u == v
+    return type(u) == type(v) and u == v
+
+
 def _bool_number_confusion(hay, needle):
-    """Python's == equates True with 1 and False with 0"""
+    """Python's == equates True with 1 and False with 0, at any depth of the compared values: an element that is equal to the needle for Python and
+    is not the same JSON value"""
     if not isinstance(hay, list):
         return False
-    if isinstance(needle, bool):
-        return any(R.is_num(x) and x == needle for x in hay)
-    if R.is_num(needle):
-        return any(isinstance(x, bool) and x == needle for x in hay)
-    return False
+    try:
+        return any(x == needle and not _json_equal(x, needle) for x in hay)
+    except Exception:
+        return False
 
 
 def _non_plain_braces(s):
